@@ -183,7 +183,7 @@ def replay(case):
 
 
 def run(tier='quick', seed=0, nproc=16):
-  n = 3 if tier == 'quick' else 4
+  n = 3 if tier == 'quick' else 5
   jobs = gen.shuffled([(s.kinds, s.hasdef) for s in gen.all_sigs(n)])
   res = common.pmap(check_sig, jobs, nproc)
   res.append(sharing_cases())
